@@ -501,8 +501,20 @@ Theorem c19_try_grammar_none_when_accessible : forall (R F : Type) early items (
 Proof. exact (@try_gen_none_when_accessible). Qed.
 Print Assumptions c19_try_grammar_none_when_accessible.
 
-(* the body as it is in the source passes both side conditions (re-checked on the regenerated lists on every run) *)
-Theorem c19_try_src_side_conditions : items_ok TRY_ITEMS = true /\ early_ok TRY_EARLY = true.
+(* ... and if some item carries the lookup + permission guard, some item the `== 0` guard, and every early exit is the
+   lookup + permission test on the examined value: every qualifying neighbour of an inaccessible examined value IS reported
+   (with c19_try_grammar_sound: the reported SET is characterised exactly for any such body) *)
+Theorem c19_try_grammar_complete : forall (R F : Type) early items (lookup : Z -> option R) allowed (mk : Z -> Z -> F),
+  items_complete items = true -> early_only_mapped early = true ->
+  forall a lo hi j, lo <= j < hi -> ~ (exists mi, lookup a = Some mi /\ allowed mi = true) ->
+  (Z.lxor a (2 ^ j) = 0 \/ exists mi, lookup (Z.lxor a (2 ^ j)) = Some mi /\ allowed mi = true) ->
+  In (mk a (Z.lxor a (2 ^ j))) (try_gen early items lookup allowed mk a lo hi).
+Proof. exact (@try_gen_complete). Qed.
+Print Assumptions c19_try_grammar_complete.
+
+(* the body as it is in the source passes all four side conditions (re-checked on the regenerated lists on every run) *)
+Theorem c19_try_src_side_conditions : items_ok TRY_ITEMS = true /\ early_ok TRY_EARLY = true /\
+                                      items_complete TRY_ITEMS = true /\ early_only_mapped TRY_EARLY = true.
 Proof. exact try_side_conditions. Qed.
 Print Assumptions c19_try_src_side_conditions.
 
@@ -519,6 +531,14 @@ Theorem c19_try_src_none_when_accessible : forall a reg br ctx rs op mi,
   lookup_region rs a = Some mi -> possibly_allowed op mi = true -> try_bit_flips_src a reg br ctx rs op = [].
 Proof. exact try_src_none_when_accessible. Qed.
 Print Assumptions c19_try_src_none_when_accessible.
+
+Theorem c19_try_src_complete : forall a reg br ctx rs op j,
+  fst (br_bounds (br_of br)) <= j < snd (br_bounds (br_of br)) ->
+  ~ (exists mi, lookup_region rs a = Some mi /\ possibly_allowed op mi = true) ->
+  (Z.lxor a (2 ^ j) = 0 \/ exists mi, lookup_region rs (Z.lxor a (2 ^ j)) = Some mi /\ possibly_allowed op mi = true) ->
+  exists f, In f (try_bit_flips_src a reg br ctx rs op) /\ f_addr f = Z.lxor a (2 ^ j) /\ f_reg f = reg.
+Proof. exact try_src_complete. Qed.
+Print Assumptions c19_try_src_complete.
 
 (* (2) generated = model: for the source as it is, the compiled bodies ARE the hand-written model all theorems above
    are about (an edit of the Rust functions changes the left-hand sides; an edit that changes behaviour breaks these) *)
@@ -593,6 +613,26 @@ Theorem c19_the_property_src : forall analysis arch platform_id e pc l,
   (~ (arch = 9 \/ arch = 32770 \/ arch = 32772) -> flips = []).
 Proof. exact the_property_src. Qed.
 Print Assumptions c19_the_property_src.
+
+Theorem c19_the_property_maps_src : forall analysis arch platform_id e pc l,
+  u64_recs l ->
+  let c := dump_cpu arch in
+  let os := os_class (dump_os platform_id) in
+  let r := dump_reason arch platform_id e in
+  let address := dump_address arch platform_id e in
+  let flips := dump_pipeline_src analysis arch platform_id e pc (regions_of_maps l) in
+  (forall f, In f flips ->
+     exists a j, examined_by analysis c os r address pc f a /\
+                 inaccessible (regions_of_maps l) (memop_of_reason r) a /\
+                 br_lo (pipeline_br analysis c os r address pc) <= j < br_hi (pipeline_br analysis c os r address pc) /\
+                 f_addr f = Z.lxor a (2 ^ j) /\
+                 (f_addr f = 0 \/
+                  exists lo hi p, In (lo, hi, p) l /\ lo <= f_addr f <= hi /\ maps_allows (memop_of_reason r) p = true) /\
+                 le_b32 (f32 0) (confidence (f_det f)) = true /\ le_b32 (confidence (f_det f)) (f32 F32_ONE_bits) = true) /\
+  (forall x oa, pc = Some x -> analysis x = Some oa -> has_null_flag oa -> flips = []) /\
+  (~ (arch = 9 \/ arch = 32770 \/ arch = 32772) -> flips = []).
+Proof. exact the_property_maps_src. Qed.
+Print Assumptions c19_the_property_maps_src.
 
 Example c19_nonvacuous_src :
   let rs := [region_of_info 140737488351232 4096 4] in
